@@ -204,7 +204,13 @@ def gen(rng, tier):
             conns = [c for c in conns if c[1]] or [(frame(b""), [frame(b"").hex()])]
             plans.append(("tcp", prov, "eofslow", conns))
     n_udp = 18 if quick else 300
-    for prov in PROVS:
+    # the wildcard-bound providers (b1w, tkw: clients talk to 127.0.0.2; replies must come FROM that address): UDP mostly
+    for prov in ["b1w", "tkw"]:
+        for i in range(3 if quick else 40):
+            conns = [tcp_conn(rng, tier) for _ in range(rng.randint(1, 2))]
+            conns = [c for c in conns if c[1]] or [(frame(b""), [frame(b"").hex()])]
+            plans.append(("tcp", prov, "eof", conns))
+    for prov in PROVS + ["b1w", "tkw", "b1w", "tkw"]:
         for i in range(n_udp):
             socks = []
             for _ in range(rng.choice([1, 1, 2, 3])):
